@@ -15,3 +15,25 @@ Fixpoint dir_lookup (p : string) (l : list (string * list string)) : option (lis
 Definition listdir (fs : fsys) (p : string) : option (list string) := dir_lookup p (fs_dirs fs).
 Definition path_exists (fs : fsys) (p : string) : bool := mem p (fs_files fs).
 
+
+(** ** Lexical path normalisation (os.path.normpath / abspath for POSIX paths
+    without a leading "//") *)
+
+(** Directory of a component list: [] is the root "/". *)
+Definition dir_str (comps : list string) : string := ("/" ++ join "/" comps)%string.
+
+(** Components of a path string: empty ones (leading / trailing / doubled
+    separator) and "." dropped ... *)
+Definition raw_comps (p : string) : list string :=
+  filter (fun c => negb (String.eqb c "") && negb (String.eqb c ".")) (split_char "/"%char p).
+
+(** ... then ".." removes the component before it (nothing at the root). *)
+Definition resolve (l : list string) : list string :=
+  fold_left (fun acc c => if String.eqb c ".." then removelast acc else acc ++ [c]) l [].
+
+Definition comps_of (p : string) : list string := resolve (raw_comps p).
+
+(** the components of os.path.abspath(start) in a process whose working
+    directory is [cwd] (absolute) *)
+Definition abs_comps (cwd start : string) : list string :=
+  if starts_with "/" start then comps_of start else resolve (raw_comps cwd ++ raw_comps start).
